@@ -281,6 +281,7 @@ func (c *bodyCase) emit(id string, st *hx.Stats) string {
 		opts = append(opts, bodylimit.WithSkipPaths("/up"))
 	}
 	rec := httptest.NewRecorder()
+	realErr := false
 	panicked := guard(func() {
 		r := router.MustNew()
 		r.Use(bodylimit.New(opts...))
@@ -325,7 +326,8 @@ func (c *bodyCase) emit(id string, st *hx.Stats) string {
 			}
 			resp, err := http.DefaultClient.Do(req)
 			if err != nil {
-				panic(err)
+				realErr = true // e.g. the server answered 413 and closed while the client was still writing
+				return
 			}
 			io.Copy(io.Discard, resp.Body)
 			resp.Body.Close()
@@ -340,6 +342,12 @@ func (c *bodyCase) emit(id string, st *hx.Stats) string {
 		}
 		r.ServeHTTP(rec, req)
 	})
+	if realErr {
+		if st != nil {
+			st.Count("B.discarded_real_client_error")
+		}
+		return ""
+	}
 	l.Sep()
 	if panicked {
 		l.Tok("P")
